@@ -88,8 +88,9 @@ def sweep(props, n_max=3, seed=0, samples_per_shape=2, max_runs_per_world=300, i
         for n in range(2, min(n_max, 3) + 1):
             for es in shapes(n):
                 for res in itertools.product(resources, repeat=n):
-                    nodes = [dict(id=NAMES[i], deps=[(NAMES[a], []) for a, b in es if b == i], prio=0, seq=False, res=res[i]) for i in range(n)]
-                    yield World(nodes, max_concurrency=2), False
+                    for maxc in (2, 1):
+                        nodes = [dict(id=NAMES[i], deps=[(NAMES[a], []) for a, b in es if b == i], prio=0, seq=False, res=res[i]) for i in range(n)]
+                        yield World(nodes, max_concurrency=maxc), False
         if allow_active:
             # phase 1b (deterministic): two nodes gated by (possibly different) parts of the SAME node's result, in
             # both priority orders -- activation is decided per reference (id AND key path), not per flag node
@@ -117,6 +118,22 @@ def sweep(props, n_max=3, seed=0, samples_per_shape=2, max_runs_per_world=300, i
                         for res in ("thread", "async"):
                             nodes = [dict(id=NAMES[i], deps=[(NAMES[a], []) for a, b in es if b == i], prio=0, seq=False, res=res, fails=(i == bad)) for i in range(n)]
                             yield World(nodes, max_concurrency=n), False
+        # phase 1f (deterministic): two nodes (independent / chained) x every pair of resources x which of them is
+        # sequential x both priority orders x limit 1 / 2, entered through a plain call AND through an executor whose
+        # selection is the whole DAG (target = the leaves, root = the roots): the selected sub-graph must schedule like the DAG
+        for es in shapes(2):
+            for res in itertools.product(resources, repeat=2):
+                for seq in ((True, False), (False, True), (True, True)):
+                    for prio in ((1, 0), (0, 1)):
+                        for maxc in (2, 1):
+                            nodes = [dict(id=NAMES[i], deps=[(NAMES[a], []) for a, b in es if b == i], prio=prio[i], seq=seq[i], res=res[i]) for i in range(2)]
+                            w = World(nodes, max_concurrency=maxc)
+                            yield w, False
+                            if maxc == 2:
+                                leaves = [NAMES[i] for i in range(2) if not any(a == i for a, b in es)]
+                                rts = [NAMES[i] for i in range(2) if not any(b == i for a, b in es)]
+                                yield World(nodes, max_concurrency=maxc), False, dict(target_nodes=leaves)
+                                yield World(nodes, max_concurrency=maxc), False, dict(root_nodes=rts)
         if escalate:
             # phase 1e (only when a scheduler function is UNDECIDED, i.e. the stand-in is the only line of defence):
             # every 4-node shape with uniform resources, limit 3 -- batches of two finished nodes next to a running one
@@ -132,16 +149,18 @@ def sweep(props, n_max=3, seed=0, samples_per_shape=2, max_runs_per_world=300, i
 
     if True:
         if True:
-            for w, is_async in candidate_worlds():
+            for cand in candidate_worlds():
+                w, is_async = cand[0], cand[1]
+                ekw = cand[2] if len(cand) > 2 else None
                 worlds += 1
-                for viol, taken, ctrl, outcome in all_schedules(w, props, is_async, max_runs_per_world):
+                for viol, taken, ctrl, outcome in all_schedules(w, props, is_async, max_runs_per_world, executor_kw=ekw):
                     total_runs += 1
                     distinct.add((json.dumps(w.describe(), sort_keys=True, default=str), tuple(taken), is_async))
                     if len(samples) < 3 and len(taken) >= 2:
                         samples.append(dict(world=w.describe(), is_async=is_async, schedule=list(taken), outcome=outcome[0], dispatch_order=[e["node"] for e in ctrl.events if e["kind"] == "dispatch" or (e["kind"] == "enter" and e["inline"])]))
                     bad = {p: v for p, v in viol.items() if v}
                     if bad:
-                        found.append(dict(world=w.describe(), is_async=is_async, schedule=list(taken), violations=bad, outcome=outcome[0]))
+                        found.append(dict(world=w.describe(), is_async=is_async, schedule=list(taken), violations=bad, outcome=outcome[0], **({"executor_kw": ekw} if ekw else {})))
                         if stop_at_first:
                             return dict(runs=total_runs, worlds=worlds, violations=found, samples=samples, distinct=len(distinct))
                     if total_runs >= budget_runs:
